@@ -22,7 +22,6 @@ import (
 	"encoding/base64"
 	"fmt"
 	"io"
-	"sort"
 	"strings"
 
 	"encoding/xml"
@@ -125,29 +124,35 @@ func withoutUnusedNamespaceDeclarations(el *etree.Element) []etree.Attr {
 	return attrs
 }
 
-// unqualifiedAttributesLast reorders, in place and throughout el's subtree, the
-// attributes of every element so that the ones in no namespace come after all others
-// (relative order otherwise kept). Attribute order carries no meaning in XML, but
-// encoding/xml matches attributes to struct fields by local name and lets the last
-// match win: ext:InResponseTo="x" would otherwise stand in for InResponseTo whenever
-// it happens to be written (or, after canonicalization, sorted) behind it.
-func unqualifiedAttributesLast(el *etree.Element) {
-	sort.SliceStable(el.Attr, func(i, j int) bool {
-		return el.Attr[i].Space != "" && el.Attr[j].Space == ""
-	})
+// dropQualifiedAttributes removes, throughout el's subtree, every attribute that is in
+// a namespace (namespace declarations stay). SAML defines all of its attributes in no
+// namespace, but encoding/xml matches attributes to struct fields by local name only:
+// ext:InResponseTo="x" would otherwise be decoded as InResponseTo, winning over a real
+// one written before it and standing in for an absent one. ds:Signature elements are
+// kept verbatim.
+func dropQualifiedAttributes(el *etree.Element) {
+	attrs := make([]etree.Attr, 0, len(el.Attr))
+	for _, a := range el.Attr {
+		if a.Space == "" || a.Space == "xmlns" {
+			attrs = append(attrs, a)
+		}
+	}
+	el.Attr = attrs
 	for _, c := range el.ChildElements() {
-		unqualifiedAttributesLast(c)
+		if c.Tag == dsig.SignatureTag && c.NamespaceURI() == dsig.Namespace {
+			continue
+		}
+		dropQualifiedAttributes(c)
 	}
 }
 
 func xmlUnmarshalElement(el *etree.Element, obj interface{}) error {
-	unqualifiedAttributesLast(el)
-
-	// Decode without the namespace declarations nothing uses; the element itself is
-	// left as it is (it may still have to be canonicalized for a signature check).
-	saved := el.Attr
+	// Decode a copy without the attributes and namespace declarations that mean nothing
+	// to the SAML types; the element itself is left as it is (it may still have to be
+	// canonicalized for a signature check).
+	el = el.Copy()
+	dropQualifiedAttributes(el)
 	el.Attr = withoutUnusedNamespaceDeclarations(el)
-	defer func() { el.Attr = saved }()
 
 	doc := etree.NewDocument()
 	// Escape CR (and TAB/LF in attribute values) as character references so that the
